@@ -526,4 +526,240 @@ theorem riLoop_noTrigger (q : Quirks) : ∀ (fuel : Nat) (l res : List HGate),
         · simp only [hs2, Bool.false_and, Bool.false_eq_true, if_false] at ht ⊢
           exact riLoop_noTrigger q fuel _ _ ht
 
+/-! ## qft, iqft -/
+
+/-- the algebraic laws of the gate semantics the Fourier-transform theorem needs -/
+structure FourierLaws (sem : Sem M) : Prop where
+  h_sq : ∀ w, sem .H .none [w] * sem .H .none [w] = 1
+  swap_sq : ∀ a b, sem .Swap .none [a, b] * sem .Swap .none [a, b] = 1
+  cp_inv : ∀ k a b, sem .CP (.qft false k) [a, b] * sem .CP (.qft true k) [a, b] = 1
+  /-- gates on disjoint wires commute -/
+  disjoint_comm : ∀ c p w c' p' w', (∀ x ∈ w, x ∉ w') → Commute (sem c p w) (sem c' p' w')
+
+theorem iqftRow_eq (wl : List Nat) (i : Nat) : iqftRow wl i = (qftRow wl i).reverse.map invGate := by
+  simp [iqftRow, qftRow, invGate, cpGate, hGate, List.map_reverse, Function.comp_def]
+
+/-- structural identity: the main part of `iqft` is the main part of `qft` reversed, every gate
+inverted -/
+theorem iqftMain_eq (wl : List Nat) : iqftMain wl = (qftMain wl).reverse.map invGate := by
+  simp only [iqftMain, qftMain, List.reverse_flatten, List.map_flatten, List.map_map, List.map_reverse]
+  congr 2
+  apply List.map_congr_left
+  intro i _
+  simp [iqftRow_eq, List.map_reverse]
+
+theorem iqftGates_eq (wl : List Nat) :
+    iqftGates wl = swapLayer wl ++ (qftMain wl).reverse.map invGate := by
+  simp [iqftGates, iqftMain_eq]
+
+/-- `L · mid · (L reversed and inverted) = 1` when `mid = 1` -/
+theorem actA_conj_inv (sem : Sem M) (mid : List AGate) (hmid : actA sem mid = 1) :
+    ∀ L : List AGate, (∀ g ∈ L, gsem sem g * gsem sem (invGate g) = 1) →
+      actA sem (L ++ mid ++ L.reverse.map invGate) = 1
+  | [], _ => by simpa using hmid
+  | g :: L, h => by
+    have ih := actA_conj_inv sem mid hmid L (fun x hx => h x (List.mem_cons_of_mem _ hx))
+    have hg := h g List.mem_cons_self
+    simp only [actA_append, List.reverse_cons, List.map_append, List.map_cons, List.map_nil, actA_cons,
+      actA_nil, mul_one, List.cons_append, mul_assoc] at ih ⊢
+    calc gsem sem g * (actA sem L * (actA sem mid * (actA sem (List.map invGate L.reverse) * gsem sem (invGate g))))
+        = gsem sem g * ((actA sem L * (actA sem mid * actA sem (List.map invGate L.reverse))) * gsem sem (invGate g)) := by
+          simp only [mul_assoc]
+      _ = 1 := by rw [ih, one_mul, hg]
+
+/-- a layer of pairwise commuting involutions, applied twice, is 1 -/
+theorem actA_layer_twice (sem : Sem M) : ∀ L : List AGate,
+    L.Pairwise (fun g h => Commute (gsem sem g) (gsem sem h)) → (∀ g ∈ L, gsem sem g * gsem sem g = 1) →
+      actA sem (L ++ L) = 1
+  | [], _, _ => by simp
+  | g :: L, hp, hs => by
+    have hp' := List.pairwise_cons.mp hp
+    have ih := actA_layer_twice sem L hp'.2 (fun x hx => hs x (List.mem_cons_of_mem _ hx))
+    have hc : Commute (gsem sem g) (actA sem L) := by
+      unfold actA
+      apply Commute.list_prod_right
+      intro x hx
+      obtain ⟨y, hy, rfl⟩ := List.mem_map.mp hx
+      exact hp'.1 y hy
+    simp only [actA_append, actA_cons, List.cons_append] at ih ⊢
+    calc gsem sem g * (actA sem L * (gsem sem g * actA sem L))
+        = gsem sem g * ((actA sem L * gsem sem g) * actA sem L) := by simp only [mul_assoc]
+      _ = gsem sem g * ((gsem sem g * actA sem L) * actA sem L) := by rw [hc.eq]
+      _ = (gsem sem g * gsem sem g) * (actA sem L * actA sem L) := by simp only [mul_assoc]
+      _ = 1 := by rw [hs g List.mem_cons_self, ih, one_mul]
+
+theorem swapLayer_twice (sem : Sem M) (laws : FourierLaws sem) (wl : List Nat) (hnd : wl.Nodup) :
+    actA sem (swapLayer wl ++ swapLayer wl) = 1 := by
+  apply actA_layer_twice
+  · unfold swapLayer
+    rw [List.pairwise_map]
+    apply List.Pairwise.imp_of_mem (R := fun i j => i < j) ?_ List.pairwise_lt_range
+    intro i j hi hj hij
+    simp only [List.mem_range] at hi hj
+    apply laws.disjoint_comm
+    have hne : ∀ a b : Nat, a < wl.length → b < wl.length → a ≠ b → wl.getD a 0 ≠ wl.getD b 0 := by
+      intro a b ha hb hab e
+      simp only [List.getD_eq_getElem?_getD, List.getElem?_eq_getElem ha, List.getElem?_eq_getElem hb,
+        Option.getD_some] at e
+      exact hab ((List.getElem_inj hnd).mp e)
+    intro x hx
+    simp only [swapGate, List.mem_cons, List.not_mem_nil, or_false] at hx ⊢
+    rcases hx with rfl | rfl
+    · intro hc
+      rcases hc with hc | hc
+      · exact hne i j (by omega) (by omega) (by omega) hc
+      · exact hne i (wl.length - j - 1) (by omega) (by omega) (by omega) hc
+    · intro hc
+      rcases hc with hc | hc
+      · exact hne (wl.length - i - 1) j (by omega) (by omega) (by omega) hc
+      · exact hne (wl.length - i - 1) (wl.length - j - 1) (by omega) (by omega) (by omega) hc
+  · intro g hg
+    simp only [swapLayer, List.mem_map] at hg
+    obtain ⟨i, _, rfl⟩ := hg
+    exact laws.swap_sq _ _
+
+theorem qftMain_inv (sem : Sem M) (laws : FourierLaws sem) (wl : List Nat) :
+    ∀ g ∈ qftMain wl, gsem sem g * gsem sem (invGate g) = 1 := by
+  intro g hg
+  simp only [qftMain, List.mem_flatten, List.mem_map] at hg
+  obtain ⟨row, ⟨i, _, rfl⟩, hg⟩ := hg
+  simp only [qftRow, List.mem_cons, List.mem_map] at hg
+  rcases hg with rfl | ⟨j, _, rfl⟩
+  · exact laws.h_sq _
+  · exact laws.cp_inv _ _ _
+
+/-- `qft` followed by `iqft` on a duplicate-free qubit list of any length acts as 1 -/
+theorem qft_iqft_gates (sem : Sem M) (laws : FourierLaws sem) (wl : List Nat) (hnd : wl.Nodup) :
+    actA sem (qftGates wl ++ iqftGates wl) = 1 := by
+  rw [iqftGates_eq, qftGates]
+  have := actA_conj_inv sem (swapLayer wl ++ swapLayer wl) (swapLayer_twice sem laws wl hnd) (qftMain wl)
+    (qftMain_inv sem laws wl)
+  simpa [List.append_assoc] using this
+
+/-- the `self.h/cp/swap` calls: when none raises, the circuit's action is multiplied by the
+action of the gates, in order -/
+theorem appendAll_act (sem : Sem M) : ∀ (gs : List AGate) (c : Circ) (nx : Nat) (c' : Circ) (nx' : Nat),
+    appendAll c gs nx = (c', nx', none) → act sem c' = act sem c * actA sem gs ∧ c'.numQubits = c.numQubits
+  | [], c, nx, c', nx', h => by
+    simp only [appendAll, Prod.mk.injEq] at h
+    simp [← h.1]
+  | g :: t, c, nx, c', nx', h => by
+    simp only [appendAll] at h
+    split at h
+    · simp at h
+    · rename_i c1 hc1
+      have ih := appendAll_act sem t c1 (nx + 2) c' nx' h
+      unfold Circ.append at hc1
+      split at hc1
+      · simp at hc1
+      · simp only [Except.ok.injEq] at hc1
+        subst hc1
+        rw [ih.1, ih.2]
+        simp [act, gsem, mul_assoc]
+
+theorem appendAll_append (gs gs' : List AGate) : ∀ (c : Circ) (nx : Nat) (c1 : Circ) (nx1 : Nat),
+    appendAll c gs nx = (c1, nx1, none) → appendAll c (gs ++ gs') nx = appendAll c1 gs' nx1 := by
+  induction gs with
+  | nil => intro c nx c1 nx1 h; simp only [appendAll, Prod.mk.injEq] at h; simp [h.1, h.2.1]
+  | cons g t ih =>
+    intro c nx c1 nx1 h
+    simp only [appendAll, List.cons_append] at h ⊢
+    split at h
+    · simp at h
+    · rename_i c2 hc2
+      exact ih c2 (nx + 2) c1 nx1 h
+
+/-- `append`'s checks pass for every gate of the list -/
+theorem appendAll_ok : ∀ (gs : List AGate) (c : Circ) (nx : Nat),
+    (∀ g ∈ gs, appendErr c.numQubits g = none) → (appendAll c gs nx).2.2 = none
+  | [], _, _, _ => rfl
+  | g :: t, c, nx, h => by
+    have hg : appendErr c.numQubits { g with gid := nx } = none := h g List.mem_cons_self
+    simp only [appendAll, Circ.append, hg]
+    exact appendAll_ok t _ (nx + 2) (fun x hx => h x (List.mem_cons_of_mem _ hx))
+
+theorem appendErr_invGate (n : Nat) (g : AGate) : appendErr n (invGate g) = appendErr n g := by
+  unfold invGate; split <;> rfl
+
+theorem getD_mem {wl : List Nat} {i : Nat} (h : i < wl.length) : wl.getD i 0 ∈ wl := by
+  simp [List.getD_eq_getElem?_getD, List.getElem?_eq_getElem h]
+
+theorem getD_ne {wl : List Nat} (hnd : wl.Nodup) {a b : Nat} (ha : a < wl.length) (hb : b < wl.length)
+    (hab : a ≠ b) : wl.getD a 0 ≠ wl.getD b 0 := by
+  intro e
+  simp only [List.getD_eq_getElem?_getD, List.getElem?_eq_getElem ha, List.getElem?_eq_getElem hb,
+    Option.getD_some] at e
+  exact hab ((List.getElem_inj hnd).mp e)
+
+theorem appendErr_two {n a b : Nat} (c : GClass) (p : Param) (hc : c.nQubits = 2) (ha : a ≤ n) (hb : b ≤ n)
+    (hab : a ≠ b) : appendErr n { cls := c, wires := [a, b], param := p } = none := by
+  simp [appendErr, hc, hab, Nat.not_lt.mpr ha, Nat.not_lt.mpr hb]
+
+/-- on a duplicate-free list of qubits `≤ num_qubits` (the bound `append` enforces) every call
+of `qft` and `iqft` passes `append`'s checks -/
+theorem fourier_gates_valid (wl : List Nat) (n : Nat) (hnd : wl.Nodup) (hr : ∀ w ∈ wl, w ≤ n) :
+    (∀ g ∈ qftGates wl, appendErr n g = none) ∧ (∀ g ∈ iqftGates wl, appendErr n g = none) := by
+  have hmain : ∀ g ∈ qftMain wl, appendErr n g = none := by
+    intro g hg
+    simp only [qftMain, List.mem_flatten, List.mem_map, List.mem_range] at hg
+    obtain ⟨row, ⟨i, hi, rfl⟩, hg⟩ := hg
+    simp only [qftRow, List.mem_cons, List.mem_map, List.mem_range'_1] at hg
+    rcases hg with rfl | ⟨j, hj, rfl⟩
+    · have := hr _ (getD_mem hi)
+      generalize wl.getD i 0 = w at this ⊢
+      simp [appendErr, hGate, GClass.nQubits, Nat.not_lt.mpr this]
+    · exact appendErr_two _ _ rfl (hr _ (getD_mem (by omega))) (hr _ (getD_mem hi))
+        (getD_ne hnd (by omega) hi (by omega))
+  have hswap : ∀ g ∈ swapLayer wl, appendErr n g = none := by
+    intro g hg
+    simp only [swapLayer, List.mem_map, List.mem_range] at hg
+    obtain ⟨i, hi, rfl⟩ := hg
+    exact appendErr_two _ _ rfl (hr _ (getD_mem (by omega))) (hr _ (getD_mem (by omega)))
+      (getD_ne hnd (by omega) (by omega) (by omega))
+  constructor
+  · intro g hg
+    rcases List.mem_append.mp hg with hg | hg
+    · exact hmain g hg
+    · exact hswap g hg
+  · intro g hg
+    rw [iqftGates_eq] at hg
+    rcases List.mem_append.mp hg with hg | hg
+    · exact hswap g hg
+    · obtain ⟨g', hg', rfl⟩ := List.mem_map.mp hg
+      rw [appendErr_invGate]
+      exact hmain g' (List.mem_reverse.mp hg')
+
+theorem appendAll_eta (c : Circ) (gs : List AGate) (nx : Nat) (h : (appendAll c gs nx).2.2 = none) :
+    appendAll c gs nx = ((appendAll c gs nx).1, (appendAll c gs nx).2.1, none) := by
+  rw [← h]
+
+/-- the repaired loop never raises -/
+theorem riLoop_none_ok : ∀ (fuel : Nat) (l res : List HGate), ∃ r, riLoop Quirks.none fuel l res = .ok r
+  | 0, l, res => ⟨_, rfl⟩
+  | fuel + 1, [], res => ⟨_, rfl⟩
+  | fuel + 1, [g], res => ⟨_, rfl⟩
+  | fuel + 1, g :: h0 :: rest, res => by
+    have pb : ∀ res : List HGate, ∃ r', popBarrier Quirks.none res = .ok r' := by
+      intro res
+      cases res with
+      | nil => exact ⟨[], rfl⟩
+      | cons r rs => simp only [popBarrier]; split <;> exact ⟨_, rfl⟩
+    simp only [riLoop]
+    split
+    · obtain ⟨r', hr'⟩ := pb res
+      rw [hr']
+      exact riLoop_none_ok fuel rest r'
+    · cases rest with
+      | nil => exact riLoop_none_ok fuel _ _
+      | cons k rest' =>
+        simp only
+        split
+        · obtain ⟨r', hr'⟩ := pb res
+          rw [hr']
+          exact riLoop_none_ok fuel rest' r'
+        · exact riLoop_none_ok fuel _ _
+
+theorem erase_shift (c : Circ) (k : Nat) : (c.shift k).erase = c.erase := by
+  simp [Circ.erase, Circ.shift, HGate.erase, HGate.shift, Function.comp_def]
+
 end QV.CircuitOps
